@@ -1084,7 +1084,7 @@ func (fa *fnAnalysis) call(res ssa.Value, c *ssa.CallCommon, pos token.Pos) {
 			// a function value of unknown identity: any module closure or function of this signature;
 			// if the value comes from receiver-reachable memory its captured variables are considered
 			// receiver-reachable too
-			for _, fn := range fa.a.closuresBySig[sig.String()] {
+			for _, fn := range fa.a.closuresBySig[sigKey(sig)] {
 				fv := make([]bits, len(fn.FreeVars))
 				for i := range fv {
 					fv[i] = v.b
@@ -1193,6 +1193,42 @@ func (fa *fnAnalysis) mergeGlobalsOnly(s *summary, callee *ssa.Function) {
 			fa.a.changed = true
 		}
 	}
+}
+
+// sigKey: a signature without receiver and WITHOUT parameter names (types.Signature.String prints the
+// names, so `func(_ context.Context, _ map[string]any)` and `func(ctx context.Context, args map[string]any)`
+// would otherwise count as different signatures and a closure stored in a named func type would not be
+// found as a possible callee).
+func sigKey(sig *types.Signature) string {
+	var sb strings.Builder
+
+	sb.WriteString("func(")
+
+	for i := 0; i < sig.Params().Len(); i++ {
+		if i > 0 {
+			sb.WriteString(",")
+		}
+
+		if sig.Variadic() && i == sig.Params().Len()-1 {
+			sb.WriteString("...")
+		}
+
+		sb.WriteString(types.Unalias(sig.Params().At(i).Type()).String())
+	}
+
+	sb.WriteString(")(")
+
+	for i := 0; i < sig.Results().Len(); i++ {
+		if i > 0 {
+			sb.WriteString(",")
+		}
+
+		sb.WriteString(types.Unalias(sig.Results().At(i).Type()).String())
+	}
+
+	sb.WriteString(")")
+
+	return sb.String()
 }
 
 func calleeName(c *ssa.CallCommon) string {
@@ -1412,7 +1448,7 @@ func (rt *rtset) walk(t types.Type, from string) {
 			rt.walk(u.Field(i).Type(), from+"."+u.Field(i).Name())
 		}
 	case *types.Signature:
-		for _, fn := range rt.a.closuresBySig[u.String()] {
+		for _, fn := range rt.a.closuresBySig[sigKey(u)] {
 			for _, fv := range fn.FreeVars {
 				rt.walk(fv.Type(), from+"(closure "+fn.Name()+")")
 			}
@@ -1641,7 +1677,7 @@ func main() {
 			continue // methods are reached through method values / interfaces only (bound closures are synthetic)
 		}
 
-		k := fn.Signature.String()
+		k := sigKey(fn.Signature)
 		a.closuresBySig[k] = append(a.closuresBySig[k], fn)
 	}
 
